@@ -10,6 +10,7 @@ from lxml import etree
 from .. import classify, drive, env, hist, snap, world
 from ..oracle import xmlread, xsdlite
 
+TECHNIQUE = 'runtime monitoring: offline checker of the packing list against the earliest-non-failed-digest model of the source history, snapshot differ, verify -pl exit codes'
 LEVEL = "exploration"
 RULE = (
     "case = flat rename-free history with 1-6 generations: changing format sets, generations with failed entries (alter, seal, "
